@@ -6828,30 +6828,13 @@ impl RelationalEngine {
             .or_insert_with(|| AtomicU64::new(0))
             .fetch_max(row_id, Ordering::Relaxed);
 
-        // Update indexes
         let indexed_columns = self.get_table_indexes(table);
-        for col in &indexed_columns {
-            if col == "_id" {
-                self.index_add(table, col, &Value::Int(row_id as i64), row_id)?;
-            } else {
-                // an omitted column is stored as NULL and must be indexed as NULL
-                let value = values.get(col).unwrap_or(&Value::Null);
-                self.index_add(table, col, value, row_id)?;
-            }
-        }
-
         let btree_columns = self.get_table_btree_indexes(table);
-        for col in &btree_columns {
-            if col == "_id" {
-                self.btree_index_add(table, col, &Value::Int(row_id as i64), row_id)?;
-            } else {
-                // an omitted column is stored as NULL and must be indexed as NULL
-                let value = values.get(col).unwrap_or(&Value::Null);
-                self.btree_index_add(table, col, value, row_id)?;
-            }
-        }
 
-        // Capture index entries for rollback (must happen AFTER index updates)
+        // Record the undo entry BEFORE touching the indexes, as tx_update / tx_delete do: if an
+        // index update below fails (e.g. the B-tree entry budget is exhausted) the statement
+        // returns an error, and rollback must still remove the row and whatever index entries
+        // were already written. Removing an entry that was never added is a no-op.
         let mut index_entries: Vec<(String, Value)> = Vec::new();
         for col in indexed_columns.iter().chain(btree_columns.iter()) {
             if col == "_id" {
@@ -6862,8 +6845,6 @@ impl RelationalEngine {
                 index_entries.push((col.clone(), value.clone()));
             }
         }
-
-        // Record undo entry
         self.tx_manager.record_undo(
             tx_id,
             UndoEntry::InsertedRow {
@@ -6873,6 +6854,27 @@ impl RelationalEngine {
                 index_entries,
             },
         );
+
+        // Update indexes
+        for col in &indexed_columns {
+            if col == "_id" {
+                self.index_add(table, col, &Value::Int(row_id as i64), row_id)?;
+            } else {
+                // an omitted column is stored as NULL and must be indexed as NULL
+                let value = values.get(col).unwrap_or(&Value::Null);
+                self.index_add(table, col, value, row_id)?;
+            }
+        }
+
+        for col in &btree_columns {
+            if col == "_id" {
+                self.btree_index_add(table, col, &Value::Int(row_id as i64), row_id)?;
+            } else {
+                // an omitted column is stored as NULL and must be indexed as NULL
+                let value = values.get(col).unwrap_or(&Value::Null);
+                self.btree_index_add(table, col, value, row_id)?;
+            }
+        }
 
         Ok(row_id)
     }
